@@ -172,7 +172,12 @@ pub fn calc_depth(s: &str) -> u32 {
 
 #[cfg(not(windows))]
 pub fn calc_depth(s: &str) -> u32 {
-    s.matches("/").count() as u32
+    // the root directory is one level above `/usr`, not on the same level
+    // (never 0, which the searcher takes for "no base depth yet")
+    match s {
+        "/" => 1,
+        _ => s.matches("/").count() as u32 + 1,
+    }
 }
 
 pub fn path_error_message(p: &Path, e: io::Error) {
